@@ -188,11 +188,11 @@ type fwdHist struct {
 	started  bool
 	next     int64
 	withheld []int64
-	sent     map[uint16]sentRec // outgoing number -> last packet sent under it (since the last re-synchronisation)
+	sent     map[uint16]sentRec   // outgoing number -> last packet sent under it (since the last re-synchronisation)
 	sentOld  map[uint16][]sentRec // what was sent under a number before earlier re-synchronisations
 	tsNow    map[uint32]bool      // RTP timestamps of packets stored since the last re-synchronisation
 	tsOld    map[uint32]bool      // ... and before it (the cache may still hold them under reused numbers)
-	stored   map[uint16][]byte  // source number -> bytes in the cache
+	stored   map[uint16][]byte    // source number -> bytes in the cache
 	flags    map[uint16]codecs.Flags
 	// C02 pid bookkeeping: source pid -> forwarded pid of in-order frames
 	lastFwdPid     int
